@@ -50,4 +50,41 @@ def packetFifo (pd qd : Nat) : Elem PBeat PBeat PFState where
     { pay := if v && qready && pready then pay1 ++ [(t.data.data, t.last)] else pay1
       par := if v && t.last && pready && qready then par1 ++ [t.data.param] else par1 }
 
+/-! ### `buffered=True`: both queues are Migen `SyncFIFOBuffered` (a non-fwft FIFO followed by an output register)
+
+      fifo.re   = fifo.readable & (~readable | re)        -- refill the output register
+      readable <= 1 if fifo.re else (0 if re else readable);   dout <= fifo head if fifo.re
+      writable  = inner FIFO not full                      -- capacity depth + 1
+-/
+
+structure PFBState where
+  payQ : List (Nat × Bool)    -- inner payload FIFO
+  payV : Bool                 -- payload output register valid (`readable`)
+  payD : Nat × Bool           -- payload output register (`dout`)
+  parQ : List Nat
+  parV : Bool
+  parD : Nat
+deriving DecidableEq, Repr
+
+def packetFifoBuffered (pd qd : Nat) : Elem PBeat PBeat PFBState where
+  init := { payQ := [], payV := false, payD := (0, false), parQ := [], parV := false, parD := 0 }
+  fwd s _ _ :=
+    (s.parV, { data := { data := s.payD.1, param := s.parD }, first := false, last := s.payD.2 })
+  bwd s _ _ _ := s.payQ.length != pd && s.parQ.length != qd
+  next s v t r :=
+    let pready := s.payQ.length != pd
+    let qready := s.parQ.length != qd
+    let rePay := s.parV && r                      -- payload_fifo.source.ready
+    let rePar := s.parV && s.payD.2 && r          -- param_fifo.source.ready
+    let frePay := !s.payQ.isEmpty && (!s.payV || rePay)
+    let frePar := !s.parQ.isEmpty && (!s.parV || rePar)
+    let payQ1 := if frePay then s.payQ.tail else s.payQ
+    let parQ1 := if frePar then s.parQ.tail else s.parQ
+    { payQ := if v && qready && pready then payQ1 ++ [(t.data.data, t.last)] else payQ1
+      payV := if frePay then true else if rePay then false else s.payV
+      payD := if frePay then s.payQ.headD (0, false) else s.payD
+      parQ := if v && t.last && pready && qready then parQ1 ++ [t.data.param] else parQ1
+      parV := if frePar then true else if rePar then false else s.parV
+      parD := if frePar then s.parQ.headD 0 else s.parD }
+
 end Litex.Packet
